@@ -29,6 +29,8 @@ def step (line : String) : String :=
     else if op.startsWith "y." then runRrule op args
     else if op == "r.fill" then runRrFill args
     else if op == "r.strm" then runRrStrm args
+    else if op == "r.parse" then runRrParse args
+    else if op == "r.print" then runRrPrint args
     else "bad-op"
 
 partial def loop (h : IO.FS.Stream) (out : IO.FS.Stream) : IO Unit := do
